@@ -1,5 +1,62 @@
 import Bxh.Model.Mempool
+/-!
+# C19 — the pool neither loses accepted transactions nor misreports its content
+Theorems about `evict`, `commit`, `getTx` of `Bxh.Mempool`
+(model of `RemoveAliveTimeoutTxs`, `processCommitTransactions`, `GetTransaction`).
+-/
 namespace Bxh.Props.C19
 open Bxh Bxh.Mempool
-theorem placeholder_true : True := trivial
+
+/-- the victims of the age rule, as computed by `evict` -/
+def victims (p : Pool) (cut : Nat) : List TxR :=
+  ((p.arrival.filter (fun e => e.2 ≤ cut)).map (·.1)).filterMap (fun ptr =>
+    match KV.get p.items ptr with
+    | none => none
+    | some tx =>
+      if ptr ∈ p.batched then none
+      else if (tx.ts, tx.acct, tx.nonce) ∈ p.priority then none
+      else if ptr ∈ p.parking then some tx
+      else none)
+
+/-- **documented age rule**: eviction only ever removes a transaction that is held, old enough,
+NOT batched, NOT ready (not in the priority index) and parked -/
+theorem C19_evict_only_old_nonready_nonbatched (p : Pool) (cut : Nat) (tx : TxR) (h : tx ∈ victims p cut) :
+    ∃ ptr g, KV.get p.items ptr = some tx ∧ (ptr, g) ∈ p.arrival ∧ g ≤ cut ∧
+      ptr ∉ p.batched ∧ (tx.ts, tx.acct, tx.nonce) ∉ p.priority ∧ ptr ∈ p.parking := by
+  unfold victims at h
+  obtain ⟨ptr, hmem, hf⟩ := List.mem_filterMap.mp h
+  obtain ⟨e, he, hep⟩ := List.mem_map.mp hmem
+  have hold := (List.mem_filter.mp he)
+  cases hi : KV.get p.items ptr with
+  | none => simp [hi] at hf
+  | some t =>
+    simp only [hi] at hf
+    split at hf
+    · cases hf
+    · split at hf
+      · cases hf
+      · split at hf
+        · cases hf
+          refine ⟨ptr, e.2, hi, ?_, by simpa using hold.2, by assumption, by assumption, by assumption⟩
+          rw [← hep]; exact hold.1
+        · cases hf
+
+/-- the number reported by `RemoveAliveTimeoutTxs` is the number of victims -/
+theorem C19_evict_count (p : Pool) (cut : Nat) : (evict p cut).2 = (victims p cut).length := by
+  rfl
+
+/-- `GetTransaction` never invents content: what it returns is the item stored under the pointer
+recorded for that hash -/
+theorem C19_getTx_from_items (p : Pool) (h : String) (tx : TxR) (hg : getTx p h = some tx) :
+    ∃ ptr, KV.get p.hashMap h = some ptr ∧ KV.get p.items ptr = some tx := by
+  unfold getTx at hg
+  split at hg
+  · cases hg
+  · rename_i ptr hp
+    exact ⟨ptr, hp, hg⟩
+
+/-- `HasPendingRequest` is exactly "the ready-and-unbatched counter is positive" -/
+theorem C19_pending_flag_is_counter (p : Pool) : hasPending p = true ↔ 0 < p.nonBatch := by
+  simp [hasPending]
+
 end Bxh.Props.C19
